@@ -30,4 +30,39 @@ def Frames.copy (h : Frames) (r : Int) : Option (Frames × Int) :=
 def Frames.apply (h : Frames) (r : Int) (f : Frame → Option Frame) : Option Frames :=
   (Frames.get? h r).bind fun fr => (f fr).map fun fr' => h.set r.toNat fr'
 
+/-! ### numpy arrays as objects (for `Tree.__init__` / `padding1d`: what is copied and what is aliased)
+
+A 1-d array object is a WINDOW `[0, len)` onto a buffer (`buf` = index into the heap of buffers `Py.Bufs`) with a dtype tag
+(0 = int32, 1 = float32, 2 = int64, 3 = float64, …).  Two arrays share storage iff they name the same buffer.  Element values are integers
+(casts between the numeric dtypes keep integer values: the callers hand in integer-valued data). -/
+
+structure Arr where
+  buf : Int
+  len : Int
+  dtype : Int
+deriving Repr, DecidableEq, Inhabited
+
+abbrev Bufs := List (List Int)
+
+/-- a new buffer holding `vals`, and the array object over all of it -/
+def Bufs.alloc (h : Bufs) (vals : List Int) (dt : Int) : Bufs × Arr := (h ++ [vals], ⟨(h.length : Int), (vals.length : Int), dt⟩)
+/-- the elements an array shows (`none` = a dangling array) -/
+def Bufs.vals (h : Bufs) (a : Arr) : Option (List Int) :=
+  if a.buf < 0 then none else (h[a.buf.toNat]?).map fun l => l.take a.len.toNat
+/-- `np.arange(a, b, step=1, dtype=dt)` -/
+def Bufs.arange (h : Bufs) (a b dt : Int) : Bufs × Arr := Bufs.alloc h ((List.range (b - a).toNat).map fun (i : Nat) => a + Int.ofNat i) dt
+/-- `np.full(n, x, dtype=dt)` / `np.zeros(n, dtype=dt)`; a negative size raises -/
+def Bufs.full (h : Bufs) (n x dt : Int) : Option (Bufs × Arr) := if n < 0 then none else some (Bufs.alloc h (List.replicate n.toNat x) dt)
+/-- `a.astype(dt)`: always a NEW buffer -/
+def Bufs.astype (h : Bufs) (a : Arr) (dt : Int) : Option (Bufs × Arr) := (Bufs.vals h a).map fun l => Bufs.alloc h l dt
+/-- `np.concatenate([a, b])` of two arrays of one dtype: a NEW buffer -/
+def Bufs.concat (h : Bufs) (a b : Arr) : Option (Bufs × Arr) :=
+  (Bufs.vals h a).bind fun x => (Bufs.vals h b).bind fun y => if a.dtype = b.dtype then some (Bufs.alloc h (x ++ y) a.dtype) else none
+/-- `a[:n]` (n ≥ 0): a VIEW — the same buffer, a shorter window -/
+def Arr.pre (a : Arr) (n : Int) : Arr := { a with len := if n < 0 then 0 else if n < a.len then n else a.len }
+/-- `d.pop(k, None)` -/
+def dictPopD {κ ν : Type} [DecidableEq κ] (d : Dict κ ν) (k : κ) : Dict κ ν × Option ν := (d.filter (fun p => p.1 ≠ k), Dict.get? d k)
+/-- `{**a, **b}` -/
+def dictMerge {κ ν : Type} [DecidableEq κ] (a b : Dict κ ν) : Dict κ ν := b.foldl (fun d p => Dict.set d p.1 p.2) a
+
 end Py
